@@ -345,6 +345,9 @@ def abort_bookkeeping(cpu, ab):
     s = cpu.s
     msa = cpu.cfg['memory_system_architecture']
     tge = (s['hcr'] >> 27) & 1
+    if msa == 'VMSA' and ab.kind == 'alignment' and (ab.va >> 25) == 0:
+        # AlignmentFaultV reports the modified virtual address: mva = FCSETranslate(address)
+        ab.va = (((s['fcseidr'] >> 25) & 0x7F) << 25) | (ab.va & 0x1FFFFFF)
     if msa == 'VMSA' and ab.kind == 'alignment' and 'tohyp' in ab.info:
         # raised by TranslateAddressV for an unaligned access to Device / Strongly-ordered memory: AlignmentFaultV is
         # called with taketohypmode = ishyp (B3.19), not with the HCR.TGE term of AlignmentFault()
